@@ -25,9 +25,9 @@ W0 == [q |-> 0, r |-> 0]
 \* absolute ticks of the events of a track given as halves
 WAbs(t) == FoldLeft(LAMBDA acc, x : [t |-> WAdd(acc.t, W2(x)), s |-> Append(acc.s, WAdd(acc.t, W2(x)))], [t |-> W0, s |-> <<>>], t).s
 WideSrcOk(e) ==
-  /\ Len(e.src) >= 1 /\ Len(e.src) <= 1000
+  /\ Len(e.src) <= 1000
   /\ \A i \in 1..Len(e.src) : HalvesOk(e.src[i]) /\ e.src[i].hi < 4096 /\ CvWellFormed(e.src[i].m)
-  /\ CvTerminated([i \in 1..Len(e.src) |-> [d |-> 0, m |-> e.src[i].m]])
+  /\ LET t0 == [i \in 1..Len(e.src) |-> [d |-> 0, m |-> e.src[i].m]] IN CvTerminated(t0) \/ CvUnterminated(t0)
 WideOk(e) == WideSrcOk(e) /\ \A k \in 1..Len(e.dtracks) : \A i \in 1..Len(e.dtracks[k]) : HalvesOk(e.dtracks[k][i])
 Ranked(e) ==
   LET sa == WAbs(e.src)
@@ -60,7 +60,7 @@ Judge(e) ==
     LET dest == [fmt |-> e.dfmt, div |-> e.ddiv,
                  tracks |-> IF wide THEN rk.dtracks ELSE [i \in 1..Len(e.dtracks) |-> Evs(e.dtracks[i])]]
         c == CvClauses(src, dest)
-        s == CvItems(src.track)
+        s == CvSrcItems(src.track)
         okc == c.div /\ c.terminated /\ c.nothingLost /\ c.placement /\ c.order
     IN [ok |-> okc,
         info |-> [id |-> e.id, genbug |-> FALSE, why |-> "clauses", clauses |-> c,
